@@ -378,6 +378,90 @@ CLI_GUARDS = {"!err.diagnostics.is_empty()", "resolver.errors.has_errors()", "er
 WASM_GUARDS = CLI_GUARDS | {"letErr(err)=arena::init(16*MEBI)", "!non_err.is_empty()"}
 
 
+TRANSFORM_RE = re.compile(
+    r"\.(strip_\w+|trim\w*|replace\w*|to_\w*case|to_owned|to_string|lines|split\w*|chars|char_indices|bytes|retain|truncate|pop|remove|"
+    r"insert\w*|drain|skip\w*|take\w*|filter\w*|map|collect|repeat|concat|join|push\w*|get\w*|clear|normalize\w*|nfc|nfd)\s*\(|\[[^\]]*\.\.[^\]]*\]")
+
+
+def text_passthrough():
+    """For each input mode of cmd.rs, and for run_source of cmd.rs and of the playground: is the text
+    handed on exactly as it was read — the variable bound by the read is the one passed (by
+    reference) to run_source / Lexer::new, and nothing in the function slices it or calls a method
+    that could produce a different text.  Purely syntactic, never raises; False = not recognised."""
+    out = {"file": False, "eval": False, "stdin": False, "cli_run_source": False, "wasm_run_source": False}
+    try:
+        cmd = strip(read("src/bin/naija/cmd.rs"))
+        _, fbody = fn_body(cmd, "run_file")
+        m = re.search(r"match\s+fs::read_to_string\(\s*path\s*\)\s*\{\s*Ok\(\s*(\w+)\s*\)\s*=>\s*run_source\(\s*path\s*,\s*&\1\s*,\s*arena\s*\)\s*,", fbody)
+        out["file"] = bool(m) and not TRANSFORM_RE.search(fbody) and len(re.findall(r"run_source\(", fbody)) == 1
+        _, rbody = fn_body(cmd, "run")
+        m = re.search(r"if\s+let\s+Some\(\s*(\w+)\s*\)\s*=\s*self\.eval\s*\{\s*run_source\(\s*\"\"\s*,\s*&\1\s*,\s*arena\s*\)\s*\}", rbody)
+        out["eval"] = bool(m) and len(re.findall(r"self\.eval", rbody)) == 1
+        _, sbody = fn_body(cmd, "run_stdin")
+        m = re.search(r"run_source\(\s*\"\"\s*,\s*&(\w+)\s*,\s*arena\s*\)", sbody)
+        if m:
+            v = m.group(1)
+            bound = re.findall(r"let\s+(?:mut\s+)?%s\b" % v, sbody)
+            arm = re.search(r"Ok\(\s*(\w+)\s*\)\s*=>\s*(\w+)\.extend_from_slice\(\s*&\w+\[\s*\.\.\s*\1\s*\]\s*\)\s*,", sbody)
+            rest = sbody.replace(arm.group(0), "") if arm else sbody
+            out["stdin"] = bool(arm) and len(bound) == 1 and not TRANSFORM_RE.search(rest) and stdin_reader()[1]
+        for key, rel, lex in (("cli_run_source", "src/bin/naija/cmd.rs", r"Lexer::new\(\s*src\s*,\s*arena\s*\)"),
+                              ("wasm_run_source", "wasm/src/lib.rs", r"Lexer::new\(\s*src\s*,\s*&arena\s*\)")):
+            params, body = fn_body(strip(read(rel)), "run_source")
+            has_param = bool(re.search(r"\bsrc\s*:\s*&str", params))
+            rebound = re.search(r"let\s+(?:mut\s+)?src\b|\bsrc\s*=[^=]", body)
+            uses = re.findall(r"\bsrc\b(\s*\.\s*\w+)?", body)
+            # src may only be passed on as it is (Lexer::new, report / render_ansi) or asked for its length
+            odd = [u for u in uses if u and not re.fullmatch(r"\s*\.\s*len", u)]
+            out[key] = has_param and not rebound and bool(re.search(lex, body)) and not odd
+    except (TranslatorError, AttributeError):
+        pass
+    return out
+
+
+GLOBAL_TYPES = r"Mutex|RwLock|Atomic\w*|Cell|RefCell|OnceLock|OnceCell|LazyLock|LazyCell|UnsafeCell"
+KNOWN_GLOBALS = {("src/arena/scratch.rs", "S_SCRATCH"), ("src/sys/unix.rs", "PENDING")}
+
+
+def process_globals():
+    """Mutable process-global state of the crate (what one run could leave behind for the next):
+    `static mut`, statics with interior mutability, thread_local!s — outside items guarded by
+    cfg(naijascript_verif) / cfg(test) / cfg(windows) and outside src/sys/windows.rs and the
+    self-update tool.  Never raises."""
+    found = set()
+    try:
+        root = os.path.join(REPO, "src")
+        for dp, _, fs in os.walk(root):
+            for fn in sorted(fs):
+                rel = os.path.relpath(os.path.join(dp, fn), REPO)
+                if not fn.endswith(".rs") or rel in ("src/sys/windows.rs", "src/bin/naija/toolchain.rs"):
+                    continue
+                src = strip(read(rel))
+                # blank out items under the guards
+                while True:
+                    g = re.search(r"#\[cfg\((?:naijascript_verif|test|windows|target_os\s*=\s*\"\"[^\]]*)\)\]", src)
+                    if not g:
+                        break
+                    j = g.end()
+                    brace, semi = src.find("{", j), src.find(";", j)
+                    if brace >= 0 and (semi < 0 or brace < semi):
+                        k, depth = brace + 1, 1
+                        while k < len(src) and depth:
+                            depth += {"{": 1, "}": -1}.get(src[k], 0)
+                            k += 1
+                    else:
+                        k = (semi + 1) if semi >= 0 else len(src)
+                    src = src[:g.start()] + " " * (k - g.start()) + src[k:]
+                for m in re.finditer(r"\bstatic\s+(mut\s+)?(\w+)\s*:\s*([^=]+?)=", src):
+                    if m.group(1) or re.search(GLOBAL_TYPES, m.group(3)):
+                        found.add((rel, m.group(2)))
+                if "thread_local!" in src:
+                    found.add((rel, "thread_local!"))
+    except (TranslatorError, OSError):
+        found.add(("?", "?"))
+    return sorted(found)
+
+
 def wasm_wiring():
     """(init capacity, events) of wasm/src/lib.rs run_source."""
     wasm = strip(read("wasm/src/lib.rs"))
@@ -468,6 +552,19 @@ def generate():
     A("   buffer after the read loop, and nowhere inside the loop *)")
     A("Definition cli_stdin_block : Z := %d." % block)
     A("Definition cli_stdin_validates_whole_buffer : bool := %s." % str(whole).lower())
+    tp = text_passthrough()
+    A("(* the text that was read is the text that is lexed: per input mode, the variable bound by the read")
+    A("   is handed to run_source by reference and nothing in the function slices or transforms it; and")
+    A("   run_source hands its `src` parameter to Lexer::new unchanged *)")
+    A("Definition cli_file_text_passthrough : bool := %s." % str(tp["file"]).lower())
+    A("Definition cli_eval_text_passthrough : bool := %s." % str(tp["eval"]).lower())
+    A("Definition cli_stdin_text_passthrough : bool := %s." % str(tp["stdin"]).lower())
+    A("Definition cli_run_source_text_passthrough : bool := %s." % str(tp["cli_run_source"]).lower())
+    A("Definition wasm_run_source_text_passthrough : bool := %s." % str(tp["wasm_run_source"]).lower())
+    pg = process_globals()
+    A("(* mutable process-global state outside verification hooks: %s *)" % ", ".join("%s %s" % x for x in pg))
+    A("Definition process_global_count : nat := %d." % len(pg))
+    A("Definition process_globals_are_scratch_and_pending : bool := %s." % str(set(pg) == KNOWN_GLOBALS).lower())
     A("")
 
     # ---- wasm
